@@ -173,8 +173,9 @@ def gen_channel(
         "id": cid,
         "cls": cls,
         "addr": addr,
+        # 0.0 is a legal limit (a resonant-only channel), distinct from "no limit"
         "max_abs_detuning": (
-            _pick(rng, [20.0, 40.0]) * TWO_PI
+            _pick(rng, [20.0, 40.0, 20.0, 40.0, 20.0, 40.0, 20.0, 40.0, 0.0, 0.16]) * TWO_PI
             if physical or rng.random() < 0.7
             else None
         ),
